@@ -44,8 +44,14 @@ func VerifC13Reentrant() {
 	if f := zz.Param("PROGB", -1); f >= 0 {
 		zz.Assume(pb == f)
 	}
-	seqA := c13Parse(c13Progs[pa], rp)
-	seqB := c13Parse(c13Progs[pb], rp)
+	// the undisturbed results are computed before the concurrent phase or - the very first parses of a process overlap,
+	// nothing has been lexed or parsed yet - after it
+	warm := zz.Bool("sequentialParsesFirst")
+	var seqA, seqB string
+	if warm {
+		seqA = c13Parse(c13Progs[pa], rp)
+		seqB = c13Parse(c13Progs[pb], rp)
+	}
 	// while one parse is inside an if/for guard the shared grammar table maps '{' to "statements": any other
 	// parse that meets a '{' meanwhile is affected
 	swap := (c13HasGuard[pa] && c13HasBrace[pb]) || (c13HasGuard[pb] && c13HasBrace[pa])
@@ -60,5 +66,9 @@ func VerifC13Reentrant() {
 	go func() { rb = c13Parse(c13Progs[pb], rp); wg.Done() }()
 	wg.Wait()
 	zz.Reach("both-done")
+	if !warm {
+		seqA = c13Parse(c13Progs[pa], rp)
+		seqB = c13Parse(c13Progs[pb], rp)
+	}
 	zz.Assert(ra == seqA && rb == seqB, "C13.same-as-sequential")
 }
